@@ -2,22 +2,22 @@ from _helpers import rapid, direct, fuzz
 
 PROPS = {
     "C18": dict(pkg="net", level="exploration", replay_test="TestC18ThreadGroup", stages=[
-        rapid("tg", "TestC18ThreadGroup", dict(shards=16, checks=200, timeout=600), dict(shards=16, checks=5000, timeout=3000)),
-        rapid("limits", "TestC18Limits", dict(shards=16, checks=12, timeout=900), dict(shards=16, checks=200, timeout=3000)),
-        rapid("caps", "TestC18Caps", dict(shards=16, checks=15, timeout=900), dict(shards=16, checks=200, timeout=3000)),
-        rapid("close", "TestC18Close", dict(shards=16, checks=150, timeout=900), dict(shards=16, checks=600, timeout=3000)),
+        rapid("tg", "TestC18ThreadGroup", dict(shards=16, checks=200, timeout=600), dict(shards=16, checks=20000, timeout=7000)),
+        rapid("limits", "TestC18Limits", dict(shards=16, checks=12, timeout=900), dict(shards=16, checks=600, timeout=7000)),
+        rapid("caps", "TestC18Caps", dict(shards=16, checks=15, timeout=900), dict(shards=16, checks=600, timeout=7000)),
+        rapid("close", "TestC18Close", dict(shards=16, checks=150, timeout=900), dict(shards=16, checks=3000, timeout=7000)),
         rapid("tg-race", "TestC18ThreadGroup", dict(shards=8, checks=200), dict(shards=8, checks=1500, timeout=3000), race=True, tiers=["thorough"]),
         rapid("limits-race", "TestC18Limits", dict(shards=8, checks=10), dict(shards=8, checks=60, timeout=3000), race=True, tiers=["thorough"]),
         rapid("caps-race", "TestC18Caps", dict(shards=8, checks=10), dict(shards=8, checks=60, timeout=3000), race=True, tiers=["thorough"]),
         rapid("close-race", "TestC18Close", dict(shards=8, checks=20), dict(shards=8, checks=150, timeout=3000), race=True, tiers=["thorough"]),
     ]),
     "C12": dict(pkg="net", level="exploration", stages=[
-        rapid("rapid", "TestC12", dict(shards=16, checks=3, timeout=1200), dict(shards=16, checks=40, timeout=7200)),
+        rapid("rapid", "TestC12", dict(shards=16, checks=3, timeout=1200), dict(shards=16, checks=120, timeout=14000)),
         rapid("race", "TestC12", dict(shards=4, checks=2), dict(shards=4, checks=10, timeout=7200), race=True, tiers=["thorough"]),
     ]),
     "C11": dict(pkg="net", level="exploration", stages=[
         direct("lies", "TestC11Lies", quick=dict(shards=16, timeout=1200), thorough=dict(shards=16, timeout=3600)),
-        rapid("rapid", "TestC11", dict(shards=16, checks=4, timeout=1200), dict(shards=16, checks=40, timeout=7200)),
+        rapid("rapid", "TestC11", dict(shards=16, checks=4, timeout=1200), dict(shards=16, checks=100, timeout=14000)),
         rapid("race", "TestC11", dict(shards=4, checks=2), dict(shards=4, checks=10, timeout=7200), race=True, tiers=["thorough"]),
     ]),
 }
